@@ -109,4 +109,12 @@ PROPS = {
    corr=[("prog-hostile", "compile", 6000, 60000), ("prog-hostile", "scan", 2000, 20000), ("lit", "scan", 2000, 20000), ("prog-hostile", "parse", 2000, 20000)],
    oracle=[("prog-hostile", "oracle-C09", 2000, 20000)],
    corpus=["compile.txt"], tables=[]),
+ "C03": dict(
+   corr=[("joins", "compile", 5000, 50000), ("joinconds", "compile", 0, 0), ("prog", "compile", 2000, 20000), ("joins", "parse", 1500, 15000)],
+   oracle=[("joins", "oracle-C13", 2000, 20000), ("joins", "oracle-C12", 1000, 10000)],
+   corpus=["compile.txt"], tables=["Gen/Tables.v: join_types, builtin_idents", "Gen/AstTables.v: can_attach_sort, split_cond_*"],
+   trusted_extra=["standard-library axiom FunctionalExtensionality.functional_extensionality_dep: used only by C03_joins, to identify the SQL and PQL expression evaluators (C03_joins_generic is axiom-free)",
+                  "specifications that define meaning: coq/Spec/PipeSem.v (join_rows, run_pipeline, eval_statement), coq/Spec/Sem.v, coq/Spec/PqlSem.v"],
+   assumptions=["naming condition ok: table names and `as` names are not of the generated shape __subquery..., `as` names pairwise different and different from table names (the generator also emits programs outside it; they are covered by correspondence only)",
+                "order-preserving reading of subqueries is an assumption about the target dialect"]),
 }
